@@ -242,9 +242,19 @@ func gridTree(g geom.Geometry, p, pz, pm int) Event {
 // ---- generation of raw trees
 
 type twGen struct {
-	r   *rand.Rand
-	d   int
-	max int
+	r       *rand.Rand
+	d       int
+	max     int
+	big     bool // counts of vertices and members are sometimes just above 8, 16, 32 or 64
+	bigUsed int
+}
+
+func (t *twGen) cnt(lo, hi int) int {
+	if t.big && t.bigUsed < 2 && t.r.Intn(3) == 0 {
+		t.bigUsed++
+		return []int{9, 9, 17, 17, 17, 33, 33, 65}[t.r.Intn(8)] + t.r.Intn(4)
+	}
+	return lo + t.r.Intn(hi-lo+1)
 }
 
 func (t *twGen) pt() []interface{} {
@@ -257,7 +267,7 @@ func (t *twGen) pt() []interface{} {
 
 func (t *twGen) line() []interface{} {
 	var out []interface{}
-	for i, n := 0, 2+t.r.Intn(3); i < n; i++ {
+	for i, n := 0, t.cnt(2, 4); i < n; i++ {
 		out = append(out, t.pt())
 	}
 	return out
@@ -304,7 +314,7 @@ func (t *twGen) tree(depth int, kind int) map[string]interface{} {
 		n["c"] = t.poly()
 	case 4:
 		var c []interface{}
-		for i, m := 0, 1+t.r.Intn(3); i < m; i++ {
+		for i, m := 0, t.cnt(1, 3); i < m; i++ {
 			if t.r.Intn(6) == 0 {
 				c = append(c, []interface{}{})
 			} else {
@@ -314,7 +324,7 @@ func (t *twGen) tree(depth int, kind int) map[string]interface{} {
 		n["c"] = c
 	case 5:
 		var c []interface{}
-		for i, m := 0, 1+t.r.Intn(3); i < m; i++ {
+		for i, m := 0, t.cnt(1, 3); i < m; i++ {
 			if t.r.Intn(6) == 0 {
 				c = append(c, []interface{}{})
 			} else {
@@ -346,7 +356,7 @@ func (t *twGen) tree(depth int, kind int) map[string]interface{} {
 		n["c"] = c
 	case 7:
 		var c []interface{}
-		for i, m := 0, 1+t.r.Intn(3); i < m; i++ {
+		for i, m := 0, t.cnt(1, 3); i < m; i++ {
 			k := 1 + t.r.Intn(6)
 			if depth < 2 && t.r.Intn(5) == 0 {
 				k = 7
@@ -361,7 +371,7 @@ func (t *twGen) tree(depth int, kind int) map[string]interface{} {
 var ctNames = []string{"XY", "XYZ", "XYM", "XYZM"}
 
 func twkbGen(r *rand.Rand, n int, tier string, emit func(Case)) {
-	for i := 0; i < n; i++ {
+	for i := 0; i < n+bigExtra(n); i++ { // large sizes come last
 		if i%40 == 39 {
 			what := []string{"precxy", "precz", "precm", "ids"}[r.Intn(4)]
 			c := Case{"kind": "bad", "what": what, "v": []int{-9, 8, -20, 100}[r.Intn(4)]}
@@ -420,7 +430,7 @@ func twkbGen(r *rand.Rand, n int, tier string, emit func(Case)) {
 		if max < 3 {
 			continue
 		}
-		tg := &twGen{r: r, d: d, max: max}
+		tg := &twGen{r: r, d: d, max: max, big: i >= n}
 		kind := 0
 		if i < 70 {
 			kind = 1 + i%7
